@@ -49,18 +49,18 @@ int backup_copy_file(const char *filename, const std::vector<UINT8> &data);
 
 
 /**
- * This calculates the MD5 over the file and writes the MD5 to
+ * This calculates the MD5 over the new content and writes the MD5 to
  * FILENAME+UNC_BACKUP_MD5_SUFFIX.*
- * This should be called after the file was written to disk.
+ * This should be called after the new content was written to disk.
  * We really don't care if it fails, as the MD5 just prevents us from backing
  * up a file that uncrustify created.
  *
- * This should be called after the file was written to disk.
- * It will be read back and an md5 will be calculated over it.
+ * The content will be read back and an md5 will be calculated over it.
  *
- * @param filename  The file that was written (full path)
+ * @param filename          The file that is being replaced (full path)
+ * @param content_filename  The file holding the new content of filename
  */
-void backup_create_md5_file(const char *filename);
+void backup_create_md5_file(const char *filename, const char *content_filename);
 
 
 #endif /* BACKUP_H_INCLUDED */
